@@ -286,4 +286,42 @@ theorem mergeTail_spec (P : Version → Prop) {this next : Span} {a b c d : Vers
     · exact merge_extend (pt s a) (pt s b) (pt s c) (pt s d) (pt s v) this.minOpen this.maxOpen
         next.minOpen next.maxOpen hab' hcd' hle hbc hopen q5
 
+/-- One iteration of `canon`'s inner loop (merge-step soundness): it never fails on
+well-formed sorted operands; when it merges, the new `this` denotes `this ∪ next` for every
+candidate outside successor seams, keeps its lower end, and stays well-formed; otherwise
+`this` is unchanged. -/
+theorem canonInner_spec (P : Version → Prop) {this next : Span}
+    (ht : SpanOK s this) (htne : this.rank ≠ .empty) (hn : SpanOK s next) (hnne : next.rank ≠ .empty)
+    (hle : MinLE s this next) (hPt : AllB P this) (hPn : AllB P next) :
+    ∃ this' ctl, canonInner this next = .ok (this', ctl) ∧ Step s P this next this' ctl := by
+  obtain ⟨a, b, h1, h2, ha, hb, -, -, -, -⟩ := ht.bounds htne
+  obtain ⟨c, d, h3, h4, hc, hd, -, -, -, -⟩ := hn.bounds hnne
+  have tail := fun hroute => mergeTail_spec P ht htne h1 h2 hn hnne h3 h4 hle hPt hPn hroute
+  unfold mergeTail at tail
+  unfold canonInner
+  simp only [h1, h2, h3, h4, vLess_eq hb.1 hc.1, vEqual_eq hb.1 hc.1, ok_bind, equalPrerelease,
+    vLessEq_eq hd.1 hb.1, vEqual_eq hb.1 hd.1]
+  by_cases hbc : pt s b < pt s c
+  · simp only [hbc, decide_true, ↓reduceIte]
+    by_cases hpre : b.pre.isEmpty = true
+    · simp only [hpre, ↓reduceIte]
+      by_cases hop : (this.maxOpen || next.minOpen) = true
+      · exact ⟨this, .brk, by simp only [hop, ↓reduceIte, ok_bind], rfl⟩
+      · simp only [hop, Bool.false_eq_true, ↓reduceIte]
+        have hpre' : b.pre = [] := by simpa using hpre
+        obtain ⟨m, hm, hmg⟩ := inc_fill_ok hb.1 hpre'
+        simp only [hm, ok_bind, vLess_eq hmg hc.1]
+        by_cases hmc : pt s m < pt s c
+        · exact ⟨this, .brk, by simp only [hmc, decide_true, ↓reduceIte, ok_bind], rfl⟩
+        · simp only [hmc, decide_false, Bool.false_eq_true, ↓reduceIte, ok_bind]
+          have hop' : this.maxOpen = false ∧ next.minOpen = false := by
+            cases h : this.maxOpen <;> cases h' : next.minOpen <;> simp_all
+          exact tail (Or.inr ⟨hop'.1, hop'.2, hpre', m, hm, hmc⟩)
+    · exact ⟨this, .cont, by simp only [hpre, Bool.false_eq_true, ↓reduceIte, ok_bind], rfl⟩
+  · simp only [hbc, decide_false, Bool.false_eq_true, ↓reduceIte]
+    by_cases hq : (!decide (pt s b ≤ pt s c ∧ pt s c ≤ pt s b) && !b.pre.isEmpty) = true
+    · exact ⟨this, .cont, by simp only [hq, ↓reduceIte, ok_bind], rfl⟩
+    · simp only [hq, Bool.false_eq_true, ↓reduceIte, ok_bind]
+      exact tail (Or.inl hbc)
+
 end DepsDev.Proofs.C09
